@@ -1,7 +1,9 @@
 """C11 — splitting on a marker partitions the track; markers reflect the thresholds
 (tracklib/algo/segmentation.py: segmentation(), split(); tracklib/core/track.py: Track.extract, Track.length,
 Track.getObsAnalyticalFeature on the built-in names; tracklib/core/utils.py: isnan; tracklib/core/obs_time.py: the comparison
-operators of ObsTime; tracklib/core/track_collection.py: TrackCollection.segmentation, split_segmentation)."""
+operators of ObsTime; tracklib/core/track_collection.py: TrackCollection.segmentation, split_segmentation).
+Numbers cross the harness with their Python type: 'I<n>' a Python int of any size, 'N<n>' a numpy.int64, 'D<p/q>' a
+numpy.float64, any other number token a Python float — segmentation() hands cells and thresholds to `<=` as they are."""
 import sys, itertools, math, datetime
 from fractions import Fraction
 from engine import Prop, ratstr, fbits
@@ -45,6 +47,52 @@ class Tm:
         return self.ms > o.ms
 
 
+def isint(tok):
+    """case token of a number with its Python type: 'I<n>' = the Python int n (any size), 'N<n>' = numpy.int64(n),
+    'D<p/q>' = numpy.float64 of that value; every other number token is a Python float"""
+    return tok[:1] in ("I", "N", "D")
+
+
+def numval(tok):
+    """token of a number -> the python object given to tracklib"""
+    if tok[:1] == "I":
+        return int(tok[1:])
+    if tok[:1] == "N":
+        import numpy as np
+        return np.int64(int(tok[1:]))
+    if tok[:1] == "D":
+        import numpy as np
+        return np.float64(fval(tok[1:]))
+    return fval(tok)
+
+
+def flavour(tok, cell=False):
+    """(is an integer type, is a numpy scalar) of a number token; an untyped CELL token naming a Python int / bool of
+    VALS is that int, every other untyped token a Python float"""
+    if tok[:1] in ("I", "N"):
+        return True, tok[0] == "N"
+    if tok[:1] == "D":
+        return False, True
+    return (cell and tok in VALS and isinstance(VALS[tok], int)), False
+
+
+def converts_inexactly(v, th):
+    """does Python's `v <= th` on these two number tokens go through numpy's conversion of the integer operand to a
+    double, AND does that conversion change the integer? (numpy.int64 against a float, numpy.float64 against a Python int
+    beyond 2^53: the comparison is numpy's, not an exact one)"""
+    (vi, vn), (ti, tn) = flavour(v, True), flavour(th)
+    if not (vn or tn) or vi == ti:
+        return False
+    tok = v if vi else th
+    n = int(VALS[tok]) if tok in VALS else int(exact(tok))
+    return int(float(n)) != n
+
+
+def dbl(n):
+    """token of the double nearest to the integer n (what float(n) is)"""
+    return ratstr(Fraction(float(n)))
+
+
 def fval(tok):
     """token of a tested value / threshold -> python float"""
     if tok == "nan":
@@ -60,15 +108,17 @@ def tokval(tok):
     """token of a feature cell / threshold -> the python value given to tracklib"""
     if istime(tok):
         return _OBSTIME[0](*tm_fields(int(tok[1:])))
-    return VALS[tok] if tok in VALS else fval(tok)
+    return VALS[tok] if tok in VALS else numval(tok)
 
 
 def valtok(v):
-    """python value read from a track -> exact protocol token (by value: True = 1 = 1.0)"""
+    """python value read from a track -> exact protocol token (by value: True = 1 = 1.0 = numpy.int64(1))"""
     if isinstance(v, bool):
         return "1" if v else "0"
     if hasattr(v, "year"):          # an ObsTime: its seven fields
         return "@%d.%d.%d.%d.%d.%d.%d" % (v.year, v.month, v.day, v.hour, v.min, v.sec, v.ms)
+    if isinstance(v, int) or getattr(getattr(v, "dtype", None), "kind", "") in ("i", "u"):
+        return str(int(v))          # an integer of any size, exactly (float() would round it beyond 2^53)
     f = float(v)
     if f != f:
         return "nan"
@@ -89,7 +139,7 @@ def exact(tok):
         return INF
     if tok == "-inf":
         return -INF
-    return Fraction(tok)
+    return Fraction(tok[1:] if isint(tok) else tok)
 
 
 def kind(tok):
@@ -98,6 +148,8 @@ def kind(tok):
 
 def mtok(tok):
     """case token -> protocol token (an instant is sent as its seven calendar fields)"""
+    if isint(tok):
+        return tok[1:]              # the model's numbers are exact rationals: a number is itself, whatever its Python type
     return "@%d.%d.%d.%d.%d.%d.%d" % tm_fields(int(tok[1:])) if istime(tok) else tok
 
 
@@ -291,6 +343,10 @@ class P(Prop):
         (M, "TV.C11.split_track_unknown", "outside the domain: an unknown name is AnalyticalFeatureError on a non-empty track, the empty collection on an empty one"),
         (M, "TV.C11.segmentation_then_split", "segmentation(track, afs, out, ths, mode) then split(track, out): both succeed and the result is the split on the markers of the rows (the 1 / 0 column is read back under the same name with == 1), any kind of value"),
         (M, "TV.C11.segmentation_then_split_val", "the same on numbers and ObsTime objects with Python's == 1 (1, 1.0, True are marked; NaN, other numbers, an ObsTime are not)"),
+        (M, "TV.C11.num_le_python", "`a <= b` between a Python int / float and a Python int / float, any pairing, any size: the exact comparison of the values (the int is not converted to a float)"),
+        (M, "TV.C11.num_le_small", "numpy scalars: where numpy converts an integer operand to a double (integer against float) an integer below 2^53 is unchanged, the comparison is still exact"),
+        (M, "TV.C11.marker_and_num", "AND mode on numbers with their Python types (ints beyond 2^53 / int64, floats, numpy scalars; no pair that numpy converts): marker = 1 iff some tested non-NaN value EXACTLY exceeds its threshold — no threshold is rounded"),
+        (M, "TV.C11.marker_or_num", "OR mode, same: marker = 1 iff every tested non-NaN value exactly exceeds its threshold"),
     ]
     partial = []
     open_statements = [
@@ -301,6 +357,12 @@ class P(Prop):
         "setObsAnalyticalFeature / createAnalyticalFeature; it is not modelled here: the model's lookup is by the exact string "
         "(split_reads_named_column) and the correspondence runs names on which the two would differ",
         "a NaN threshold, thresholds_max = None, tuples as feature lists, an empty track (AnalyticalFeatureError) are outside the domain",
+        "a numpy scalar compared with a number of the other sort (numpy.int64 against a float, numpy.float64 against a Python int) "
+        "beyond 2^53: numpy converts the integer operand to the nearest double before comparing, so `exceeds` is numpy's and not the "
+        "exact one; modelled (PNum.le?, roundInt) and compared on every such case, not judged by the oracle; theorems marker_and_num / "
+        "marker_or_num assume no such pair, num_le_small shows the conversion is harmless below 2^53; no theorem yet that roundInt is "
+        "monotone (which would give `marker = 1 iff some value exceeds its threshold after rounding the integers`); strings as thresholds "
+        "('35': TypeError against a number) are outside the domain",
         "a number tested against an ObsTime threshold or the reverse (AttributeError unless the marker is already decided: `False and ...`, "
         "`True or ...`) is outside the domain: modelled (Val.le?, the evaluation order in foldCmpG), theorems marker_first_raises / "
         "marker_decided_first for the first tested value only; run on both sides, not compared (the property promises nothing there)",
@@ -320,8 +382,21 @@ class P(Prop):
                 "float-max default, marker = not fold written as 1 / 0 into the feature table; the same loops with utils.isnan (v != v) and "
                 "`v <= threshold` as Python operator calls on numbers and ObsTime objects (ObsTime.__ne__ / __le__ / __gt__ of core/obs_time.py, "
                 "the AttributeError of a number against an ObsTime, the evaluation order of `comp and (...)` / `comp or (...)`); "
-                "Track.getObsAnalyticalFeature for the built-in names x y z t timestamp idx")
-    rule = ("NAMES: feature names are arbitrary strings (any but x y z t timestamp idx): the marker of split(), the tested and output "
+                "Track.getObsAnalyticalFeature for the built-in names x y z t timestamp idx; `<=` on numbers with their Python types "
+                "(Python int of any size / float / numpy.int64 / numpy.float64: exact, except numpy's conversion of the integer operand of "
+                "an integer-float pair to the nearest double, ties to even — PNum.le?, roundInt of Model/SplitNum.lean); segmentation() "
+                "itself converts neither cell nor threshold")
+    rule = ("EXACT INTEGERS: tested features holding Python ints of any size (epoch nanoseconds, counters, 64-bit identifiers, beyond int64) "
+            "and numpy.int64 cells, against Python-int / numpy.int64 / float thresholds around 0, 1000, +-2^53, 2^54, 10^16, 2^60, 1.7e18, "
+            "+-2^62, 2^64, 3e20: thresholds that are NOT doubles, values equal to the threshold, next to it, at / next to the double nearest "
+            "to it, half a spacing of the doubles away; int and float cells in one column; for every base a grid of 1..2 features x AND/OR x "
+            "{below, equal, above, NaN} by 1 and by half / one spacing; bare / list forms, history, output = tested feature, then split. "
+            "Thresholds and cells reach tracklib as the Python objects the tokens name (an int stays an int). The oracle compares exact "
+            "rationals. Every such case also runs on the typed-number model (markerp / segsplitp), which must agree with the exact model "
+            "unless numpy converts an integer beyond 2^53 (numpy.int64 against a float, numpy.float64 against a Python int: ~1 in 6 of "
+            "the numpy cases; compared with the typed model, not judged by the oracle). mutate(): an integer-valued case moved by one "
+            "of the bases, as Python ints. "
+            "NAMES: feature names are arbitrary strings (any but x y z t timestamp idx): the marker of split(), the tested and output "
             "features of segmentation() (also through TrackCollection) are also given names that are not identifiers — reading like an "
             "expression over OTHER features of the same track, which exist with per-observation values 0..3 / NaN (`speed-limit` next to "
             "`speed` and `limit`, `a>=b`, `2*a`, `(a)`, `D{a}`, `a=b`), differing from another feature's name by surrounding blanks / tab / "
@@ -382,6 +457,8 @@ class P(Prop):
                 "for 4 threshold vectors, as one track and as single-observation tracks",
                 "split(): all 2^n marker vectors for n = 1..%d x %d forms of marker-feature name that are not identifiers (expression-like over "
                 "the features a and b of the same track, surrounding blanks, separators, quotes, braces, digits)" % (4 if tier == "quick" else 6, len(EXOTIC)),
+                "segmentation(): %d magnitudes (0 .. 2^53 .. 2^64 .. 3e20) x 1..2 integer features x integer (not a double) / float threshold x "
+                "AND/OR x every combination of {below, equal, above, NaN} per feature, as one track and as single-observation tracks" % len(self.BIG),
                 "segmentation(): 1..2 tested features, each numeric or ObsTime-valued (ObsTime threshold) x AND/OR x every combination "
                 "of {earlier/below, equal, later/above, NaN} per feature, as feature columns and with the built-in 'timestamp' first"]
 
@@ -649,6 +726,109 @@ class P(Prop):
                             out.append(c1)
         return out
 
+    # ---- exact integers: Python ints of any size (epoch nanoseconds, counters, 64-bit identifiers), numpy.int64 cells
+    # Python compares int with int and int with float EXACTLY (the int is not converted), so a tested value and a
+    # threshold that differ by 1 beyond 2^53 are told apart; numpy.int64 against a Python int / numpy.int64 as well.
+    # (numpy.int64 against a float, numpy.float64 against a Python int: numpy converts the integer to a double first;
+    # those pairs are generated below 2^53 only, where the conversion is exact.)
+    BIG = [2 ** 53, -2 ** 53, 2 ** 60, 1_700_000_000_000_000_000, 2 ** 62, -2 ** 62 - 2 ** 20, 10 ** 16, 2 ** 54,
+           2 ** 53 - 6, 0, 1000, 2 ** 64, 3 * 10 ** 20]
+
+    @staticmethod
+    def ulp(n):
+        """spacing of the doubles around the integer n"""
+        return max(1, 2 ** (abs(n).bit_length() - 53))
+
+    def int_threshold(self, rng, base, u):
+        """an integer threshold around `base`: mostly NOT a double (so that float(threshold) != threshold)"""
+        r = rng.random()
+        if r < 0.6:
+            return base + rng.randrange(-3 * u, 3 * u + 1)
+        if r < 0.8:
+            return base + rng.choice([-1, 1, u // 2, -(u // 2), u // 2 + 1, u + 1, u - 1])
+        return base + rng.randrange(-3, 4) * u            # a double
+
+    def int_value(self, rng, T, u):
+        """an integer near the threshold T: equal, next to it, at / next to the double nearest to T, half a spacing away"""
+        R = int(float(T)) if abs(T) < 2 ** 1000 else T
+        return rng.choice([T, T, T - 1, T + 1, R, R - 1, R + 1, (T + R) // 2, T + u // 2, T - u // 2, T + u, T - u,
+                           R + u, R - u, T + rng.randrange(-3 * u, 3 * u + 1)])
+
+    def rand_segi(self, rng, base=None):
+        """segmentation() on features holding exact integers against integer / float thresholds around `base`"""
+        k = rng.randrange(1, 4)
+        n = rng.randrange(1, 9)
+        base = rng.choice(self.BIG) if base is None else base
+        u = self.ulp(base)
+        pn = rng.choice([0.0, 0.0, 0.15, 0.4])
+        small = abs(base) + 8 * u < 2 ** 53                # every integer in sight is a double: any pairing is exact
+        in64 = abs(base) + 8 * u < 2 ** 63
+        # `free`: any pairing of Python / numpy integers and floats, also where numpy converts the integer operand to a
+        # double beyond 2^53 (outside what the oracle judges: compared with the typed model only)
+        free = in64 and rng.random() < 0.2
+        ths, cols = [], []
+        for j in range(k):
+            ck = rng.choice(["int", "int", "float", "mixed"] + (["npint"] if in64 else []) + (["npfloat", "any", "npint"] if free else []))
+            T = self.int_threshold(rng, base, u)
+            if free:
+                tk = rng.choice(["I", "N", "F", "D"])
+            elif ck == "npint":
+                tk = rng.choice(["I", "I", "N"] + (["F"] if small else []))
+            else:
+                tk = rng.choice(["I", "I", "I", "F"] + (["N"] if (in64 and (small or ck == "int")) else []))
+            if tk in ("F", "D"):
+                ths.append(("D" if tk == "D" else "") + dbl(T))      # a float threshold (the double nearest to T)
+                T = int(exact(ths[-1]))
+            else:
+                ths.append(tk + str(T))
+            col = []
+            for i in range(n):
+                if rng.random() < pn:
+                    col.append("nan")
+                    continue
+                v = self.int_value(rng, T, u)
+                c_ = ck if ck not in ("mixed", "any") else rng.choice(["int", "float"] if ck == "mixed" else ["int", "float", "npint", "npfloat"])
+                if tk == "N" and c_ == "float" and not small and not free:
+                    c_ = "int"                               # a float against numpy.int64: numpy's conversion
+                col.append({"float": "", "npfloat": "D"}[c_] + dbl(v) if c_ in ("float", "npfloat") else ("N" if c_ == "npint" else "I") + str(v))
+            cols.append(col)
+        r = rng.random()
+        if r < 0.1:
+            ths.append("I" + str(base + 1))                  # an extra threshold: never read
+        c = {"kind": "seg", "mode": rng.choice(["and", "or"]), "ths": ths, "rows": [[cols[j][i] for j in range(k)] for i in range(n)],
+             "split": rng.random() < 0.8}
+        if k == 1:
+            c["afs_form"] = rng.choice(["str", "list"])
+        c["ths_form"] = "scalar" if (len(ths) == 1 and rng.random() < 0.5) else "list"
+        if rng.random() < 0.25:
+            c["pre"] = {"type": "seg", "mode": rng.choice(["and", "or"]), "ths": ["I" + str(self.int_threshold(rng, base, u)) for _ in range(k)]}
+        elif rng.random() < 0.15:
+            c["outname"] = "f%d" % rng.randrange(k)          # the marker overwrites one of the tested features
+        return c
+
+    def int_grid(self, rng):
+        """for every base of BIG: 1..2 tested integer features x AND/OR x every combination of {below, equal, above, NaN}
+        by 1 and by half / one spacing of the doubles, against an integer threshold that is not a double (where there
+        are such) and against the double next to it"""
+        out = []
+        for base in self.BIG:
+            u = self.ulp(base)
+            for k in (1, 2):
+                Ts = [base + (u // 2 + 1 if u > 1 else 1) + 2 * j * u + j for j in range(k)]
+                for form in ("I", "F"):
+                    ths = [("I" + str(T)) if form == "I" else dbl(T) for T in Ts]
+                    Te = [int(exact(t)) for t in ths]
+                    rows = []
+                    for combo in itertools.product("beaN", repeat=k):
+                        d = rng.choice([1, 1, max(1, u // 2), u])
+                        rows.append(["nan" if ch == "N" else "I" + str(Te[i] + {"b": -d, "e": 0, "a": d}[ch]) for i, ch in enumerate(combo)])
+                    for mode in ("and", "or"):
+                        out.append({"kind": "seg", "mode": mode, "ths": ths, "rows": rows, "split": True})
+                        for r in rows:
+                            out.append({"kind": "seg", "mode": mode, "ths": ths, "rows": [r], "split": False,
+                                        "ths_form": "scalar" if (k == 1 and rng.random() < 0.5) else "list"})
+        return out
+
     def cases(self, rng, tier):
         out = []
         quick = tier == "quick"
@@ -718,6 +898,9 @@ class P(Prop):
             if nth >= k and rng.random() < 0.4:
                 out.append(self.with_names(rng, self.with_forms(rng, c)))
         out += self.kind_grid(rng)
+        out += self.int_grid(rng)
+        for _ in range(1500 if quick else 40000):
+            out.append(self.rand_segi(rng))
         for _ in range(1500 if quick else 40000):
             out.append(self.rand_segb(rng))
             if rng.random() < 0.25 and self.in_domain(out[-1]):
@@ -823,7 +1006,22 @@ class P(Prop):
         c["split"] = True
         return c
 
+    def has_types(self, case):
+        return case["kind"] == "seg" and any(isint(x) for x in list(case["ths"]) + [v for r in case["rows"] for v in r])
+
+    def npconv(self, case):
+        """a compared pair for which numpy rounds the integer operand to a double before comparing: what `exceeds` means there
+        is numpy's business; run on both sides and compared with the model (PNum.le?), not judged by the oracle"""
+        if not self.has_types(case):
+            return False
+        ths = case["ths"]
+        return any(v != "nan" and j < len(ths) and not istime(v) and not istime(ths[j]) and ths[j] != "nan" and converts_inexactly(v, ths[j])
+                   for r in case["rows"] for j, v in enumerate(r))
+
     def in_domain(self, case):
+        return self.in_domain0(case) and not self.npconv(case)
+
+    def in_domain0(self, case):
         if case["kind"] == "seg":
             if not case["rows"]:
                 return True
@@ -871,11 +1069,18 @@ class P(Prop):
                 t["builtin"] = "+".join(bi)
             kds = set(kind(v) for r in self.eff_rows(case) for v in r if v != "nan")
             t["values"] = "mixed" if len(kds) == 2 else "ObsTime" if kds == {"time"} else "numbers"
-            if t["domain"] == "in" and not self.in_domain(case):
+            if t["domain"] == "in" and not self.in_domain0(case):
                 t["domain"] = "number-vs-ObsTime"
             flat = [v for r in case["rows"] for v in r] + list(case["ths"])
             if "inf" in flat or "-inf" in flat:
                 t["infinite"] = "yes"
+            ints = [x for x in flat if x[:1] in ("I", "N")]
+            if ints:
+                big = any(abs(int(x[1:])) > 2 ** 53 for x in ints)
+                t["integers"] = ("beyond-2^53" if big else "small") + ("+numpy" if any(x[0] in "ND" for x in flat if isint(x)) else "") + \
+                                ("+floats" if any(x[:1] not in ("I", "N") and x != "nan" for x in flat) else "")
+            if t["domain"] == "in" and self.npconv(case):
+                t["domain"] = "numpy-converts-an-integer"
         if k == "coll":
             t["tracks"] = len(case["tracks"])
             if case.get("names"):
@@ -1008,7 +1213,8 @@ class P(Prop):
             vals = [int(x) for x in toks] if nm == "tag" else [tokval(x) for x in toks]
             if env.get("numpy") and nm != "tag":      # cells computed with numpy: np.float64 / np.int64 scalars
                 import numpy as np
-                vals = [v if isinstance(v, bool) or hasattr(v, "year") else (np.int64(v) if isinstance(v, int) else np.float64(v)) for v in vals]
+                vals = [v if isinstance(v, bool) or hasattr(v, "year") or isint(x) else (np.int64(v) if isinstance(v, int) else np.float64(v))
+                        for v, x in zip(vals, toks)]        # ('I<n>' / 'N<n>' cells say themselves what they are)
             t.createAnalyticalFeature(nm, vals)
         return t
 
@@ -1076,10 +1282,10 @@ class P(Prop):
             t = self.make_track(case, len(rows))
             names = self.names(case)
             outname = case.get("outname", "out")
-            ths = [tokval(x) if istime(x) else fval(x) for x in case["ths"]]
+            ths = [tokval(x) if istime(x) else numval(x) for x in case["ths"]]
             pre = case.get("pre")
             if pre and pre["type"] == "seg":
-                self.S.segmentation(t, names, outname, [tokval(x) if istime(x) else fval(x) for x in pre["ths"]], self.mode_const(pre["mode"]))
+                self.S.segmentation(t, names, outname, [tokval(x) if istime(x) else numval(x) for x in pre["ths"]], self.mode_const(pre["mode"]))
                 if case.get("split"):
                     self.S.split(t, outname)        # a split() on the earlier marker, result dropped: it must leave nothing behind
             afs_form, ths_form = self.forms(case)
@@ -1099,7 +1305,7 @@ class P(Prop):
                 tracks.append(self.make_track({"kind": "seg", "rows": rows, "names": names}, len(rows), off))
                 off += len(rows)
             coll = self.TC(tracks)
-            ths = [fval(x) for x in case["ths"]]
+            ths = [numval(x) for x in case["ths"]]
             if case["mode"] == "default":
                 coll.segmentation(names, outname, ths)
             else:
@@ -1177,8 +1383,8 @@ class P(Prop):
         if k == "splitidx":
             return ["C11.splitidx %s %s %s" % (self.limit_tok(case), ",".join(str(i) for i in case["idx"]) or "_", self.pts_tok(case["pts"]))]
         if k == "coll":
-            return ["C11.collseg %s %s %s" % ("and" if case["mode"] == "default" else case["mode"], ",".join(case["ths"]) or "_",
-                                              "|".join(";".join(",".join(r) for r in rows) for rows in case["tracks"]))]
+            return ["C11.collseg %s %s %s" % ("and" if case["mode"] == "default" else case["mode"], ",".join(mtok(x) for x in case["ths"]) or "_",
+                                              "|".join(";".join(",".join(mtok(v) for v in r) for r in rows) for rows in case["tracks"]))]
         erows = self.eff_rows(case)
         rows = ";".join(",".join(mtok(v) for v in r) for r in erows)
         n = len(erows)
@@ -1210,7 +1416,25 @@ class P(Prop):
         if self.numeric(case):
             lines += ["C11.%s %s %s %s" % (cmd, case["mode"], ths, rows),
                       "C11.segseq %d %s %s %s" % (n, ";".join(virt), tab, " ".join(calls))]
+        # ... and, when a number says which Python type it has (int of any size, numpy scalar), the loops on numbers WITH their
+        # types (PNum: exact unless numpy converts the integer operand of an integer / float pair)
+        if self.pline(case):
+            lines.append("C11.%sp %s %s %s" % (cmd, case["mode"], ",".join(self.ptok(x) for x in case["ths"]) or "_",
+                                               ";".join(",".join(self.ptok(v, True) for v in r) for r in erows)))
         return lines
+
+    def pline(self, case):
+        return (self.has_types(case) and self.numeric(case) and not (case.get("env") or {}).get("numpy")
+                and not any(nm in VIRTUAL or nm in BUILTIN for nm in self.names(case)))
+
+    @staticmethod
+    def ptok(tok, cell=False):
+        if tok == "nan" or isint(tok):
+            return tok
+        if cell and tok in VALS:
+            v = VALS[tok]
+            return "I%d" % int(v) if isinstance(v, int) else valtok(v)
+        return tok
 
     def numeric(self, case):
         """no ObsTime anywhere: neither tested ('timestamp'), nor as a cell of the feature table, nor as a threshold"""
@@ -1226,8 +1450,11 @@ class P(Prop):
         for r in replies:
             if r == "bad-request":
                 raise ValueError("bad-request")
+        pl = None
         if k == "seg":
             replies = list(replies)
+            if self.pline(case):
+                pl = replies.pop()
             if case.get("split") and " " in replies[1]:
                 # `<table> <pieces>`: the pieces of split() reading the marker back from the table by name must be those of
                 # split() on the marker vector of the rows
@@ -1243,6 +1470,17 @@ class P(Prop):
             if replies[0] != replies[1]:
                 raise ValueError("model: split() reading the marker by name answers %s, the loop on the marker vector %s" % (replies[1], replies[0]))
             replies = replies[:1]
+        if pl is not None and self.npconv(case):
+            # numpy converts an integer operand somewhere: the model is the typed one; markers (and pieces) only
+            if pl.startswith("err:"):
+                return {"err": pl}
+            parts = pl.split(" ")
+            out = {"markers": "" if parts[0] == "_" else parts[0], "npconv": True}
+            if case.get("split"):
+                out.update({"pieces": parse_pieces(parts[1]), "content": None})
+            return out
+        if pl is not None and pl != replies[0]:
+            raise ValueError("model: on numbers with their Python types the loops answer %s, on exact values %s" % (pl, replies[0]))
         for r in replies:
             if r.startswith("err:"):
                 return {"err": r}
@@ -1271,7 +1509,7 @@ class P(Prop):
         return out
 
     def compare(self, case, impl_out, model_out):
-        if not self.in_domain(case):
+        if not self.in_domain0(case):
             # fewer thresholds than features: the property promises nothing, so a change of behaviour there
             # (e.g. repairing the `>=` guard) must not be reported; the model's IndexError / float-max branch is
             # still exercised and any crash of the model side would surface as a driver failure
@@ -1284,8 +1522,9 @@ class P(Prop):
         # observation is marked. The pieces' uids (<uid>.<count>.<begin>.<end>, modelled by `splitU`) are compared on
         # the split streams; they are not part of the statement, so `spec` never looks at them
         with_uids = case["kind"] in ("split", "splitv", "splitg")
+        drop = ("table", "npconv") if model_out.get("npconv") else ()      # (numbers typed model: markers and pieces only)
         def canon(o):
-            o = {k: v for k, v in o.items() if k != "uids" or with_uids}
+            o = {k: v for k, v in o.items() if (k != "uids" or with_uids) and k not in drop}
             if case["kind"] == "coll":
                 o["pieces"] = [p for p in o["pieces"] if p]      # one possible empty trailing piece per track
             elif case["kind"] != "splitidx" and o.get("pieces") and o["pieces"][-1] == []:
@@ -1359,7 +1598,7 @@ class P(Prop):
         if out["markers"] != want:
             bad = [i for i in range(len(want)) if i >= len(out["markers"]) or out["markers"][i] != want[i]][0]
             return ("marker %s, expected %s: observation %d with tested values %s (features %s) against thresholds %s in %s mode "
-                    "[@n = the instant n milliseconds after 1970-01-01]"
+                    "[@n = the instant n milliseconds after 1970-01-01; I<n> = the Python int n, N<n> = numpy.int64(n), other numbers are floats]"
                     % (out["markers"], want, bad, erows[bad], self.names(case), case["ths"], case["mode"].upper()))
         if case.get("split"):
             return oracle_split([c == "1" for c in want], out["pieces"])
@@ -1483,6 +1722,19 @@ class P(Prop):
             if self.in_domain(case) and case["rows"]:
                 for _ in range(3):
                     yield self.with_names(rng, dict(case, names=list(self.names(case))))
+            # the same comparison pattern on exact integers beyond 2^53: every (integer-valued) tested value and threshold
+            # moved by the same amount, as Python ints
+            toks = list(case["ths"]) + [v for r in case["rows"] for v in r] + list((case.get("pre") or {}).get("ths", []))
+            if (self.in_domain(case) and case["rows"] and self.numeric(case) and not case.get("names")
+                    and all(x == "nan" or (x not in ("inf", "-inf") and exact(x).denominator == 1) for x in toks)):
+                sh = lambda x, b: x if x == "nan" else "I" + str(int(exact(x)) + b)
+                for b in rng.sample(self.BIG, 3):
+                    c = {k_: v for k_, v in case.items() if k_ != "env"}
+                    c["ths"] = [sh(x, b) for x in case["ths"]]
+                    c["rows"] = [[sh(x, b) for x in r] for r in case["rows"]]
+                    if case.get("pre") and case["pre"]["type"] == "seg":
+                        c["pre"] = dict(case["pre"], ths=[sh(x, b) for x in case["pre"]["ths"]])
+                    yield c
         if k in ("split", "splitv", "splitg") and "src" not in case:
             # the same marker under a name that is not an identifier, next to the features the name seems to mention
             n = len(case["m"]) if k == "split" else len(case["vals"])
